@@ -4,6 +4,7 @@ import Pandora.Model.C13Funcs
 import Pandora.Model.C13Multi
 import Pandora.Model.C13Jsonline
 import Pandora.Model.C13Grpc
+import Pandora.Model.C13Cfg
 import Pandora.Spec.C13
 
 /-
@@ -57,7 +58,8 @@ def renderRun (withUri : Bool) (r : Run) : String :=
     if withUri then s!"{hexB e.tag}/{hexB e.uri}/{bodyHex e.body}" else hexB e.tag
   s!"n={r.entries.length} e={String.intercalate "," es} end={endStr r.end_}"
 
-def ammoModel (fmt : String) (pre : Bool) (multi : Option (Nat × Nat)) (data : Bytes) : Option String :=
+/-- what one pass over the file gives; `none` = the driver abstains (a library decides, or the case is another property's) -/
+def ammoOne (fmt : String) (data : Bytes) : Option Run :=
   let run (urlOk : Bytes → Bool) : Option Run :=
     match fmt with
     | "uripost" => some (uripostRun true urlOk data)
@@ -72,14 +74,33 @@ def ammoModel (fmt : String) (pre : Bool) (multi : Option (Nat × Nat)) (data : 
     -- (the uripost decoder decodes it, and the model follows: its `rest` is always empty)
     else if fmt != "uri" && a.end_ == .ok && !(trimSpace a.rest).isEmpty then none
     else if fmt == "uri" && data.length ≥ 65536 then none
-    else
-      let a := if pre && a.end_ != .ok then { a with entries := [] } else a
-      -- `passes=… limit=…`: the file is read again and again (the harness never asks for neither limit)
-      let a := match multi with
-        | some (passes, limit) => multiRunAll a passes limit
-        | none => a
-      some (renderRun (fmt != "raw") a)
+    else some a
   | _, _ => none
+
+def ammoModel (fmt : String) (pre : Bool) (multi : Option (Nat × Nat)) (data : Bytes) : Option String :=
+  (ammoOne fmt data).map fun a =>
+    let a := if pre && a.end_ != .ok then { a with entries := [] } else a
+    -- `passes=… limit=…`: the file is read again and again (the harness never asks for neither limit)
+    let a := match multi with
+      | some (passes, limit) => multiRunAll a passes limit
+      | none => a
+    renderRun (fmt != "raw") a
+
+/-! ### `chosen_cases` of the http provider (round 4): the end of the run tells "no ammo" from a regular end; a run that
+neither limit ends is `UNLIMITED` (not judged) -/
+
+def endStrCC : End → String
+  | .err c => if c == "noammo" then "err:noammo" else endStr (.err c)
+  | e => endStr e
+
+def renderRunCC (withUri : Bool) (r : Run) : String :=
+  if r.end_ == .fuel then "UNLIMITED" else
+  let es := r.entries.map fun e =>
+    if withUri then s!"{hexB e.tag}/{hexB e.uri}/{bodyHex e.body}" else hexB e.tag
+  s!"n={r.entries.length} e={String.intercalate "," es} end={endStrCC r.end_}"
+
+def ammoModelCC (fmt : String) (pre : Bool) (passes limit : Nat) (chosen : Bytes → Bool) (data : Bytes) : Option String :=
+  (ammoOne fmt data).map fun a => renderRunCC (fmt != "raw") (ccRunAll true a chosen pre passes limit)
 
 /-! ### jsonline: what `encoding/json` makes of a file, for files written in a small safe subset of JSON
 
@@ -247,6 +268,13 @@ def jsonlineModel (pre : Bool) (multi : Option (Nat × Nat)) (data : Bytes) : Op
     let (passes, limit) := multi.getD (1, 0)
     let r := jsonlineRun true src pre passes limit
     if r == ctorErr then some "n=0 e= end=ctor-err:other" else some (renderRun false r)
+
+def jsonlineModelCC (pre : Bool) (passes limit : Nat) (chosen : Bytes → Bool) (data : Bytes) : Option String :=
+  match jsonlineSrc data with
+  | none => none
+  | some src =>
+    let r := jsonlineRunCC true src chosen pre passes limit
+    if r == ctorErr then some "n=0 e= end=ctor-err:other" else some (renderRunCC false r)
 
 /-- a line that certainly does not fit `bufio.Scanner`'s buffer (64 KiB), with only clearly shorter lines before it:
 its index. The run must then end with an error after at most the lines before it, with and without `continue_on_error`. -/
@@ -523,6 +551,63 @@ def tagModel (s : Bytes) : Option String :=
     | .err _ => some "err"
     | _ => some "panic"
 
+/-! ### option values (round 4): plugin types of a pool config, string options of a scenario description -/
+
+/-- the value under test: `val` repeated `rep` times -/
+def optValue (kv : List (String × String)) : Option Bytes := do
+  let v ← bytesOfHex (getS kv "val")
+  if getS kv "rep" == "" then some v
+  else
+    let n ← getN? kv "rep"
+    some (List.replicate n v).flatten
+
+/-- a name no plugin is registered under, with or without the white space around it (a decoder that trims the name is
+as good as one that does not): blank, or with a byte no registered name has - they are made of lower-case letters, digits,
+`/`, `_`, `-`; a name with a capital letter is left to the registry -/
+def certainlyUnregistered (v : Bytes) : Bool :=
+  let t := trimSpace v
+  t.isEmpty || t.length > 40 || (str "nosuch").isPrefixOf t ||
+    !(t.all fun b => isAlnum b || b == 47 || b == 95 || b == 45)
+
+/-- what decoding a plugin whose `type` key(s) hold `vals` gives, as far as the registry is known here: `some "err"`,
+`some "panic"`, or `none` (the name may be registered: the plugin's own config decides) -/
+def pluginOutcome (vals : List TypeVal) : Option String :=
+  let run (registered : Bytes → Bool) : Res Unit := pluginFromConf id id registered vals
+  let certain := vals.all fun v => match v with | .str s => certainlyUnregistered s | .other => true
+  match run (fun _ => false), run (fun _ => true) with
+  | .panic _, _ => some "panic"
+  | _, .panic _ => some "panic"
+  | .err _, .err _ => some "err"
+  | .err _, _ => if certain then some "err" else none
+  | _, _ => none
+
+def typeVals (tv : String) (v : Bytes) : Option (List TypeVal) :=
+  match tv with
+  | "" | "s" => some [.str v]
+  | "n" | "l" | "z" | "m" => some [.other]
+  | "2" => some [.str v, .str v]
+  | "a" => some []
+  | _ => none
+
+def poptModel (kv : List (String × String)) : Option (Option String) := do
+  let v ← optValue kv
+  let vals ← typeVals (getS kv "tv") v
+  some ((pluginOutcome vals).map fun o => "end=" ++ o)
+
+def soptModel (kv : List (String × String)) : Option (Option String) := do
+  let v ← optValue kv
+  let slot := getS kv "slot"
+  let absent := getS kv "abs" == "1"
+  if slot.endsWith ".type" then
+    let vals := if absent then [] else [TypeVal.str v]
+    some ((pluginOutcome vals).map fun o => if o == "err" then "end=ctor-err" else "end=" ++ o)
+  else if slot == "csv.delimiter" && !absent then
+    match csvOpen true v with
+    | .err _ => some (some "end=ctor-err")
+    | .panic _ => some (some "end=panic")
+    | _ => some none
+  else some none
+
 /-! ### the handler -/
 
 def resStr {α} (r : Res α) (okf : α → String) : String :=
@@ -564,12 +649,19 @@ def model (kv : List (String × String)) : Option (Option String × String) := d
     let multi : Option (Nat × Nat) :=
       if fmt == "grpcjson" || getS kv "passes" == "" then none
       else some ((getN? kv "passes").getD 1, (getN? kv "limit").getD 0)
-    if multi == some (0, 0) then none
+    if multi == some (0, 0) && getS kv "cc" == "" then none
     -- `hdrs=`: the `headers` option of the http provider; the first string `util.DecodeHeader` refuses makes the constructor fail
     let hdrs ← (splitList (getS kv "hdrs")).mapM bytesOfHex
     if fmt != "grpcjson" && hdrs.any (fun h => !(decodeHeader h).isOk) then
       pure (some "n=0 e= end=ctor-err:hdr", s!"{fmt} provider")
     else if fmt == "grpcjson" then pure (grpcModel kv data, "grpc/json provider")
+    else if getS kv "cc" != "" then
+      -- `chosen_cases` of the http provider (round 4)
+      let chosen ← grpcChosen kv
+      let (passes, limit) := ((getN? kv "passes").getD 1, (getN? kv "limit").getD 0)
+      let pre := getS kv "pre" == "1"
+      if fmt == "jsonline" then pure (jsonlineModelCC pre passes limit chosen data, "jsonline provider")
+      else pure (ammoModelCC fmt pre passes limit chosen data, s!"{fmt} provider")
     else if fmt == "jsonline" then pure (jsonlineModel (getS kv "pre" == "1") multi data, "jsonline provider")
     else pure (ammoModel fmt (getS kv "pre" == "1") multi data, s!"{fmt} provider")
   | "genjson" =>
@@ -642,6 +734,12 @@ def model (kv : List (String × String)) : Option (Option String × String) := d
       | .panic _ => "end=panic"
       | .fatal _ => "end=fatal"
     pure (some m, s!"{getS kv "kind"}/scenario provider (empty list item)")
+  | "popt" =>
+    let m ← poptModel kv
+    pure (m, s!"pool config, plugin type of `{getS kv "where"}`")
+  | "sopt" =>
+    let m ← soptModel kv
+    pure (m, s!"{getS kv "kind"}/scenario provider (option {getS kv "slot"})")
   | "cli" =>
     let p ← cliShape (getS kv "pools")
     match massagePools true p with
@@ -709,6 +807,11 @@ def handle : Handler := fun input impl =>
   match model kv with
   | none => ("-", "fail:driver:unparsable input")
   | some (m, kind) =>
+    -- neither a pass limit nor an ammo limit, and something is chosen: the run delivers for ever, by design
+    if m == some "UNLIMITED" then ("-", "skip:unlimited") else
+    -- the same options on a file the driver does not read itself: a run that did not end is not judged
+    if m.isNone && getS kv "k" == "ammo" && getS kv "cc" != "" && getS kv "passes" == "0" && getS kv "limit" == "0" &&
+        containsSub impl "hang" then ("-", "skip:inconclusive") else
     let isGrpc := getS kv "k" == "ammo" && getS kv "fmt" == "grpcjson"
     let verdict := match ((randIntVerdict kv impl).orElse (fun _ => pfxVerdict kv impl)).orElse (fun _ => fltVerdict kv impl) with
       | some v => v
